@@ -23,17 +23,17 @@ import (
 type EvKind uint8
 
 const (
-	EvCreate EvKind = iota + 1 // new regular file linked at Path (Ino)
-	EvWrite                    // Data written at Off of Ino
-	EvTruncate                 // Ino truncated to Size
-	EvSync                     // fsync of regular file Ino
-	EvSyncDir                  // fsync of directory Path
-	EvRename                   // Path -> Path2
-	EvRemove                   // unlink / rmdir of Path
-	EvMkdir                    // directory Path created
-	EvLink                     // hard link Path2 -> same inode as Path
-	EvMarker                   // harness annotation (Label, Aux)
-	EvFault                    // an injected failure (not a mutation; Label = op, Aux = errno)
+	EvCreate   EvKind = iota + 1 // new regular file linked at Path (Ino)
+	EvWrite                      // Data written at Off of Ino
+	EvTruncate                   // Ino truncated to Size
+	EvSync                       // fsync of regular file Ino
+	EvSyncDir                    // fsync of directory Path
+	EvRename                     // Path -> Path2
+	EvRemove                     // unlink / rmdir of Path
+	EvMkdir                      // directory Path created
+	EvLink                       // hard link Path2 -> same inode as Path
+	EvMarker                     // harness annotation (Label, Aux)
+	EvFault                      // an injected failure (not a mutation; Label = op, Aux = errno)
 )
 
 var kindNames = map[EvKind]string{EvCreate: "create", EvWrite: "write", EvTruncate: "truncate", EvSync: "fsync",
